@@ -37,11 +37,12 @@ FILES = {
     "app/public/sub/leaf.gmi": "leaf",
     "docs/readme.txt": "readme", "docs/inner/x.gmi": "x",
     "application/index.gmi": "application index",
+    "club/Index.gmi": "members only (index spelled with a capital)", "club/notes.gmi": "club notes",
     "priv\u00e9/secret.gmi": "accented secret", "priv\u00e9/caf\u00e9.gmi": "accented page",
 }
-DIRS = ["", "private", "private/deep", "app", "app/public", "app/public/sub", "docs", "docs/inner", "application", "priv\u00e9"]
+DIRS = ["", "private", "private/deep", "app", "app/public", "app/public/sub", "docs", "docs/inner", "application", "priv\u00e9", "club"]
 PREFIXES = ["/", "/private/", "/private", "/private/deep/", "/app/", "/app", "/app/public/", "/app/public/sub/",
-            "/docs/", "/docs/inner/", "/pub.gmi", "/private/secret.gmi", "/application/", "/priv\u00e9/", "/priv\u00e9/secret.gmi"]
+            "/docs/", "/docs/inner/", "/pub.gmi", "/private/secret.gmi", "/application/", "/priv\u00e9/", "/priv\u00e9/secret.gmi", "/club/Index.gmi", "/club/Index.gmi"]
 SENT_RE = re.compile(r"RESOURCE<([^>]*)>")
 CERTS = [None, "ec-a", "rsa-a", "ed-a", "twin-a", "twin-b", "chain:ec-b:ec-a", "chain:ec-b:rsa-a"]
 
